@@ -152,6 +152,10 @@ def answers_for(choices):
     add("list-malformed", "0,,%d" % (n - 1))
     add("list-trailing-comma", "0,")
     add("list-spaced", " 0 , %d " % (n - 1))
+    if dups:
+        # an ambiguous entry stays ambiguous as one item of a list
+        add("list-duplicated-name", "%s,%s" % (dups[0], uniq[0] if uniq else "0"))
+        add("list-index-duplicated-name", "0,%s" % dups[0])
     return out
 
 
@@ -769,6 +773,87 @@ def _bounded_non_interactive(ctx, rec):
                 rec.fail(sig, what, {"check": "non_interactive", "builder": i, "label": builders[i][0], "input": text})
     ctx.done(exhaustive=True, note=rec.note())
 
+# =============================================================================== one question object asked more than once
+AGAIN_LISTS = ("plain-3", "numeric-collide", "duplicate")
+AGAIN_FIRST = ((), ("zz",), ("zz", "zz"), ("zz", "zz", "zz"), ("1",), ("zz", "1"), ("",), ("-1",))
+AGAIN_SECOND = (("1",), ("zz", "1"), ("zz",), (), ("0",), ("zz", "zz", "0"))
+
+
+def _again_builders():
+    out = []
+    lists = dict(CHOICE_LISTS)
+    for lname in AGAIN_LISTS:
+        for multi in (False, True):
+            for att in (None, 1, 2):
+                out.append(("ChoiceQuestion[%s,%s,attempts=%r]" % (lname, "multi" if multi else "single", att),
+                            make_choice(lists[lname], multi, None, att)))
+
+    def validated(att):
+        def build():
+            from clikit.ui.components import Question
+
+            q = Question("A number")
+            q.set_validator(int)
+            q.set_max_attempts(att)
+            return q
+        return build
+
+    def confirm():
+        from clikit.ui.components import ConfirmationQuestion
+
+        return ConfirmationQuestion("Sure", True)
+
+    for att in (None, 1, 2):
+        out.append(("Question[validator=int,attempts=%r]" % (att,), validated(att)))
+    out.append(("ConfirmationQuestion", confirm))
+    return out
+
+
+def _observed(run):
+    res = run.result
+    if run.outcome == "raised":
+        res = "%s: %s" % (type(res).__name__, res)
+    return {"outcome": run.outcome, "result": repr(res), "reads": list(run.reads), "error_output": run.err, "output": run.out}
+
+
+def asked_again_case(idx, first, first_nl, second, second_nl):
+    """the SAME question object asked on a second input, after a first dialogue that succeeded, failed or ran out of input:
+    the second dialogue is that of a freshly built question on that input"""
+    label, build = _again_builders()[idx]
+    q = build()
+    budget = len(first) + len(second) + 6
+    r1 = run_question(lambda: q, script_text(list(first), first_nl), budget)
+    r2 = run_question(lambda: q, script_text(list(second), second_nl), budget)
+    want = run_question(build, script_text(list(second), second_nl), budget)
+    got, exp = _observed(r2), _observed(want)
+    kind = label.split("[")[0]
+    diff = [k for k in ("outcome", "result", "reads", "error_output", "output") if got[k] != exp[k]]
+    if diff:
+        after = {"returned": "after-an-answered-ask", "raised": "after-a-failed-ask", "budget": "after-a-runaway-ask"}[r1.outcome]
+        return [("asked_again|%s|%s|%s-differs" % (kind, after, diff[0]),
+                 "%s asked %r (%s) and then %r: the second ask differs from a fresh question in %s: %r, fresh %r" % (
+                     label, list(first), r1.outcome, list(second), diff, {k: got[k] for k in diff}, {k: exp[k] for k in diff}))]
+    return []
+
+
+def _bounded_asked_again(ctx, rec):
+    builders = _again_builders()
+    ctx.check("asked_again",
+              "%d questions (ChoiceQuestion over %d lists x single/multi x attempts {unlimited,1,2}; Question with an int "
+              "validator x 3 limits; ConfirmationQuestion) x %d first scripts (answered, failed, ended by end of input) x %d "
+              "second scripts x final newline on/off: the second ask of one question object reads, prints and returns what a "
+              "fresh question does on that input (every invalid entry prints ONE error - none carried over from the ask before)"
+              % (len(builders), len(AGAIN_LISTS), len(AGAIN_FIRST), len(AGAIN_SECOND)))
+    for i in range(len(builders)):
+        for first in AGAIN_FIRST:
+            for second in AGAIN_SECOND:
+                for nl in (True, False):
+                    ctx.case([builders[i][0], list(first), list(second), nl])
+                    for sig, what in asked_again_case(i, first, nl, second, nl):
+                        rec.fail(sig, what, {"check": "asked_again", "builder": i, "label": builders[i][0], "first": list(first),
+                                             "second": list(second), "nl": nl})
+    ctx.done(exhaustive=True, note=rec.note())
+
 
 def bounded(ctx):
     with _NoStty():
@@ -777,6 +862,7 @@ def bounded(ctx):
         _bounded_odd(ctx, _Recorder(ctx))
         _bounded_confirmation(ctx, _Recorder(ctx))
         _bounded_non_interactive(ctx, _Recorder(ctx))
+        _bounded_asked_again(ctx, _Recorder(ctx))
 
 
 def replay_bounded(check_id, failure):
@@ -794,6 +880,8 @@ def replay_bounded(check_id, failure):
             fails = confirmation_case(w["pattern"], w["default"], w["answer"], w["last_nl"])
         elif kind == "non_interactive":
             fails = non_interactive_case(w["builder"], w["input"])
+        elif kind == "asked_again":
+            fails = asked_again_case(w["builder"], tuple(w["first"]), w["nl"], tuple(w["second"]), w["nl"])
         else:
             return {"fails": False, "detail": "no replayable witness"}
     same = [f for f in fails if f[0] == sig]
